@@ -27,7 +27,7 @@ const (
 	False   Tri = -1
 )
 
-const MaxAtoms = 8
+const MaxAtoms = 16 // 0..7 belong to the rule, 8..15 are allocated automatically
 
 // State is the rule-visible abstract state. It must stay comparable.
 type State struct {
@@ -106,6 +106,10 @@ type Spec struct {
 	// and its deferred calls run at its returns. Off by default: rules that identify their
 	// events by position in the root function must not see a callee's look-alike events.
 	InlineCalls bool
+	// ErrAtom lets a rule that tracks `v != nil` for some error variables itself tell the
+	// engine which atom that is, so that the nil-ness of an error returned by an inlined callee
+	// can be handed to the variable that receives it at the call site.
+	ErrAtom func(obj types.Object) (idx int, ok bool)
 	// InlineFunc, when set, restricts inlining to callees it accepts.
 	InlineFunc func(c *Ctx, fn *types.Func) bool
 }
@@ -144,12 +148,15 @@ type Ctx struct {
 	// automatic atoms: boolean locals that receive a constant true / false from the return
 	// statements of an immediately invoked literal (`x, ok := func() (T, bool) {...}()`)
 	autoAtom map[types.Object]int
-	tupleLHS []ast.Expr        // targets of the IIFE call being simulated (nil otherwise)
-	tupleAt  int               // c.Depth inside that IIFE
-	Depth    int               // > 0 while an inlined callee is being simulated
-	stack    []*types.Func     // inlined callees (recursion guard)
-	rootPkg  *types.Package    // package of the simulated root function
-	pending  [][]*ast.CallExpr // deferred calls of the inlined callees, innermost last
+	tupleLHS []ast.Expr            // targets of the IIFE call being simulated (nil otherwise)
+	tupleAt  int                   // c.Depth inside that IIFE
+	scratch  map[types.Object]int  // parking atoms for values on their way to a target
+	bound    map[types.Object]bool // targets whose atom was set by the returns of the call being simulated
+	keep     map[types.Object]bool // targets whose automatic atom the following assign event must not reset
+	Depth    int                   // > 0 while an inlined callee is being simulated
+	stack    []*types.Func         // inlined callees (recursion guard)
+	rootPkg  *types.Package        // package of the simulated root function
+	pending  [][]*ast.CallExpr     // deferred calls of the inlined callees, innermost last
 }
 
 // Violate records a violation at the current event with the path that led here.
@@ -318,8 +325,8 @@ func (c *Ctx) applyKills(s State, ev *Event) State {
 		} else if f := prog.SelField(c.Info, l); f != nil {
 			obj = f
 		}
-		if obj == nil {
-			continue
+		if obj == nil || c.keep[obj] {
+			continue // (a target whose atom was just set from the returns of the simulated call keeps it)
 		}
 		for idx, deps := range c.spec.AtomDeps {
 			for _, d := range deps {
@@ -530,6 +537,14 @@ func (c *Ctx) inlineCallee(fn *types.Func, in []cst) []cst {
 func (c *Ctx) inlineFrame(body *ast.BlockStmt, in []cst) []cst {
 	savedReturns := c.returns
 	c.returns = nil
+	before := map[types.Object]bool{}
+	for o := range c.autoAtom {
+		before[o] = true
+	}
+	beforeS := map[types.Object]bool{}
+	for o := range c.scratch {
+		beforeS[o] = true
+	}
 	c.Depth++
 	c.pending = append(c.pending, nil)
 	fl := c.stmt(body, in, "")
@@ -547,6 +562,29 @@ func (c *Ctx) inlineFrame(body *ast.BlockStmt, in []cst) []cst {
 		c.Depth--
 	}
 	c.returns = savedReturns
+	// automatic atoms of the frame's own locals are released (targets of the enclosing
+	// assignment, set at the frame's returns, live on)
+	var freed []int
+	for o, i := range c.autoAtom {
+		if !before[o] && !c.bound[o] && o.Pos() >= body.Pos() && o.Pos() <= body.End() {
+			freed = append(freed, i)
+			delete(c.autoAtom, o)
+		}
+	}
+	for o, i := range c.scratch {
+		if !beforeS[o] && !c.bound[o] && o.Pos() >= body.Pos() && o.Pos() <= body.End() {
+			freed = append(freed, i)
+			delete(c.scratch, o)
+		}
+	}
+	if len(freed) > 0 {
+		for k := range out {
+			for _, i := range freed {
+				out[k].s.V[i] = Unknown
+			}
+		}
+		out = dedup(out)
+	}
 	return out
 }
 
@@ -608,6 +646,68 @@ func (c *Ctx) cond(e ast.Expr, in []cst) (t, f []cst) {
 	return c.atom(e, in)
 }
 
+func isErrorT(t types.Type) bool {
+	return t != nil && types.Identical(t, types.Universe.Lookup("error").Type())
+}
+
+// atomOf returns the atom that stands for a variable: the rule's own atom for an error
+// variable it tracks (Spec.ErrAtom), or an automatic one (boolean value / `err != nil`),
+// allocated from the top of the atom range when create is set.
+func (c *Ctx) atomOf(obj types.Object, create bool) (int, bool) {
+	if c.spec.ErrAtom != nil && isErrorT(obj.Type()) {
+		if idx, ok := c.spec.ErrAtom(obj); ok && idx >= 0 && idx < MaxAtoms {
+			return idx, true
+		}
+	}
+	if idx, ok := c.autoAtom[obj]; ok {
+		return idx, true
+	}
+	if !create {
+		return 0, false
+	}
+	if c.autoAtom == nil {
+		c.autoAtom = map[types.Object]int{}
+	}
+	idx, ok := c.freeAtom()
+	if !ok {
+		return 0, false // the low indices belong to the rule
+	}
+	c.autoAtom[obj] = idx
+	return idx, true
+}
+
+// freeAtom returns an unused index of the automatic range 8..MaxAtoms-1.
+func (c *Ctx) freeAtom() (int, bool) {
+	used := map[int]bool{}
+	for _, i := range c.autoAtom {
+		used[i] = true
+	}
+	for _, i := range c.scratch {
+		used[i] = true
+	}
+	for i := MaxAtoms - 1; i >= 8; i-- {
+		if !used[i] {
+			return i, true
+		}
+	}
+	return 0, false
+}
+
+func (c *Ctx) scratchOf(obj types.Object) (int, bool) {
+	if idx, ok := c.scratch[obj]; ok {
+		return idx, true
+	}
+	if c.scratch == nil {
+		c.scratch = map[types.Object]int{}
+	}
+	idx, ok := c.freeAtom()
+	if !ok {
+		return 0, false
+	}
+	c.scratch[obj] = idx
+	return idx, true
+}
+
 // BoolLocalDef, when set (by the rules package), maps an identifier naming a boolean local
 // with exactly one definition to the defining expression, so that
 // `stale := a && b; if x || stale` is evaluated like `if x || (a && b)`.
@@ -639,6 +739,49 @@ func (c *Ctx) atom(e ast.Expr, in []cst) (t, f []cst) {
 					}
 				}
 				return dedup(t), dedup(f)
+			}
+		}
+	}
+	// `v != nil` / `v == nil` on an error local the rule does not track itself
+	if x, notNil, ok := IsNilCompare(c.Info, e); ok && c.Depth >= 0 {
+		if id, isID := ast.Unparen(x).(*ast.Ident); isID {
+			if obj, isVar := c.Info.Uses[id].(*types.Var); isVar && !obj.IsField() && isErrorT(obj.Type()) {
+				claimed := false
+				if c.spec.Atom != nil {
+					if _, _, ok := c.spec.Atom(c, e); ok {
+						claimed = true
+					}
+				}
+				if !claimed {
+					if idx, ok := c.atomOf(obj, true); ok {
+						for _, x := range in {
+							v := x.s.V[idx]
+							if !notNil {
+								v = -v
+							}
+							tr := &trace{pos: e.Pos(), prev: x.t}
+							if v != False {
+								s := x.s
+								if notNil {
+									s.V[idx] = True
+								} else {
+									s.V[idx] = False
+								}
+								t = append(t, cst{s, tr})
+							}
+							if v != True {
+								s := x.s
+								if notNil {
+									s.V[idx] = False
+								} else {
+									s.V[idx] = True
+								}
+								f = append(f, cst{s, tr})
+							}
+						}
+						return dedup(t), dedup(f)
+					}
+				}
 			}
 		}
 	}
@@ -705,7 +848,42 @@ func (c *Ctx) stmts(list []ast.Stmt, in []cst) flow {
 }
 
 func (c *Ctx) assignEvent(node ast.Node, lhs, rhs []ast.Expr, tok token.Token, in []cst) []cst {
-	return c.emit(&Event{Kind: EvAssign, Node: node, Pos: node.Pos(), Lhs: lhs, Rhs: rhs, Tok: tok}, in)
+	out := c.emit(&Event{Kind: EvAssign, Node: node, Pos: node.Pos(), Lhs: lhs, Rhs: rhs, Tok: tok}, in)
+	if len(c.autoAtom) > 0 {
+		for i, l := range lhs {
+			id, ok := ast.Unparen(l).(*ast.Ident)
+			if !ok {
+				continue
+			}
+			obj := c.Info.Defs[id]
+			if obj == nil {
+				obj = c.Info.Uses[id]
+			}
+			idx, has := c.autoAtom[obj]
+			if !has || c.keep[obj] {
+				continue
+			}
+			// a new value: unknown, except for the constants nil / true / false
+			v := Unknown
+			if len(rhs) == len(lhs) {
+				if tv, ok := c.Info.Types[rhs[i]]; ok {
+					switch {
+					case tv.IsNil():
+						v = False
+					case tv.Value != nil && tv.Value.String() == "true":
+						v = True
+					case tv.Value != nil && tv.Value.String() == "false":
+						v = False
+					}
+				}
+			}
+			for k := range out {
+				out[k].s.V[idx] = v
+			}
+		}
+		out = dedup(out)
+	}
+	return out
 }
 
 func (c *Ctx) stmt(s ast.Stmt, in []cst, label string) flow {
@@ -741,14 +919,30 @@ func (c *Ctx) stmt(s ast.Stmt, in []cst, label string) flow {
 			}
 		}
 		if len(x.Rhs) == 1 {
-			if call, ok := ast.Unparen(x.Rhs[0]).(*ast.CallExpr); ok {
-				if _, isLit := ast.Unparen(call.Fun).(*ast.FuncLit); isLit {
-					savedL, savedAt := c.tupleLHS, c.tupleAt
-					c.tupleLHS, c.tupleAt = x.Lhs, c.Depth+1
-					in = c.expr(x.Rhs[0], in)
-					c.tupleLHS, c.tupleAt = savedL, savedAt
-					return flow{out: c.assignEvent(x, x.Lhs, x.Rhs, x.Tok, in)}
+			if _, ok := ast.Unparen(x.Rhs[0]).(*ast.CallExpr); ok {
+				// if the call is simulated in place (immediately invoked literal, inlined callee), its
+				// return statements tell what the targets receive: constant booleans and the nil-ness
+				// of errors become automatic atoms of the target variables
+				savedL, savedAt, savedB := c.tupleLHS, c.tupleAt, c.bound
+				c.tupleLHS, c.tupleAt, c.bound = x.Lhs, c.Depth+1, map[types.Object]bool{}
+				in = c.expr(x.Rhs[0], in)
+				bound := c.bound
+				c.tupleLHS, c.tupleAt, c.bound = savedL, savedAt, savedB
+				c.keep = bound
+				out := c.assignEvent(x, x.Lhs, x.Rhs, x.Tok, in)
+				c.keep = nil
+				for obj := range bound {
+					si, ok1 := c.scratch[obj]
+					ti, ok2 := c.atomOf(obj, false)
+					if !ok1 || !ok2 {
+						continue
+					}
+					for k := range out {
+						out[k].s.V[ti] = out[k].s.V[si]
+						out[k].s.V[si] = Unknown
+					}
 				}
+				return flow{out: dedup(out)}
 			}
 		}
 		for _, r := range x.Rhs {
@@ -793,12 +987,14 @@ func (c *Ctx) stmt(s ast.Stmt, in []cst, label string) flow {
 			in = c.expr(r, in)
 		}
 		out := c.emit(&Event{Kind: EvReturn, Node: x, Pos: x.Pos(), Results: x.Results}, in)
-		if c.tupleLHS != nil && c.Depth == c.tupleAt && len(x.Results) == len(c.tupleLHS) {
+		if c.tupleLHS != nil && c.Depth == c.tupleAt && c.Depth > 0 && len(x.Results) == len(c.tupleLHS) {
 			for i, res := range x.Results {
 				id, ok := c.tupleLHS[i].(*ast.Ident)
 				if !ok || id.Name == "_" {
 					continue
 				}
+				// the target lives in the caller's package info; Defs/Uses are per package and the
+				// callee is in the same package, so c.Info works for both
 				obj := c.Info.Defs[id]
 				if obj == nil {
 					obj = c.Info.Uses[id]
@@ -806,31 +1002,51 @@ func (c *Ctx) stmt(s ast.Stmt, in []cst, label string) flow {
 				if obj == nil {
 					continue
 				}
-				if b, ok := obj.Type().Underlying().(*types.Basic); !ok || b.Info()&types.IsBoolean == 0 {
+				isBool, isErr := false, isErrorT(obj.Type())
+				if b, ok := obj.Type().Underlying().(*types.Basic); ok && b.Info()&types.IsBoolean != 0 {
+					isBool = true
+				}
+				if !isBool && !isErr {
 					continue
 				}
-				idx, has := c.autoAtom[obj]
-				if !has {
-					if c.autoAtom == nil {
-						c.autoAtom = map[types.Object]int{}
-					}
-					idx = MaxAtoms - 1 - len(c.autoAtom)
-					if idx < 4 {
-						continue // keep the low indices for the rule's own atoms
-					}
-					c.autoAtom[obj] = idx
+				if _, ok := c.atomOf(obj, true); !ok {
+					continue
+				}
+				// the value is parked in a scratch atom and moved to the target's atom after the
+				// assignment event, so that the rule still sees the target's OLD value at that event
+				idx, ok := c.scratchOf(obj)
+				if !ok {
+					continue
 				}
 				v := Unknown
-				if tv, ok := c.Info.Types[res]; ok && tv.Value != nil {
-					switch tv.Value.String() {
-					case "true":
+				res = ast.Unparen(res)
+				if tv, ok := c.Info.Types[res]; ok {
+					switch {
+					case isBool && tv.Value != nil && tv.Value.String() == "true":
 						v = True
-					case "false":
+					case isBool && tv.Value != nil && tv.Value.String() == "false":
 						v = False
+					case isErr && tv.IsNil():
+						v = False // "err != nil" is false
+					}
+				}
+				var src = -1
+				if rid, ok := res.(*ast.Ident); ok && v == Unknown {
+					if robj := c.Info.Uses[rid]; robj != nil {
+						if j, ok := c.atomOf(robj, false); ok {
+							src = j
+						}
 					}
 				}
 				for k := range out {
-					out[k].s.V[idx] = v
+					if src >= 0 {
+						out[k].s.V[idx] = out[k].s.V[src]
+					} else {
+						out[k].s.V[idx] = v
+					}
+				}
+				if c.bound != nil {
+					c.bound[obj] = true
 				}
 			}
 		}
